@@ -12,7 +12,7 @@ class C15:
     coq_timeout = 900
     model_targets = ["Pack.vo", "Corr/C15.vo"]
     proof_target = "Props/C15.vo"
-    theorems = ["C15_decode_encode", "C15_encode_canonical", "C15_reencode"]
+    theorems = ["C15_decode_encode", "C15_encode_canonical", "C15_reencode", "C15_encode_injective", "C15_encode_seq_injective"]
     allowed_axioms = []
     coq_header = "From Rdest Require Import Base BCodec BGrammar Corr.C15.\nOpen Scope N_scope.\n"
     corr_name = "BEncoder / BDecoder vs BCodec.encode / decode"
